@@ -34,6 +34,7 @@ static ORCH: Mutex<Option<Orch>> = Mutex::new(None);
 static CV: Condvar = Condvar::new();
 static COMPLETED: AtomicBool = AtomicBool::new(false);
 static BOTH_DONE: AtomicBool = AtomicBool::new(false);
+static GC_FIRST_GO: AtomicBool = AtomicBool::new(false);
 static SPINS: [AtomicU64; 4] = [AtomicU64::new(0), AtomicU64::new(0), AtomicU64::new(0), AtomicU64::new(0)];
 static POLLS_AFTER: AtomicU64 = AtomicU64::new(0);
 static COUNT_POLLS_OF: AtomicUsize = AtomicUsize::new(usize::MAX);
@@ -341,19 +342,24 @@ fn two_stoppers() {
 fn gc_first() {
     let mut engine = Engine::new();
     install("");
-    engine.run("(require-builtin steel/time) (define verif-g3 0) (define t #f)".to_string()).unwrap();
-    hold(0, hook::STOP_BEGIN);
+    // T1 waits (polling a host flag) until the driver has seen T0 inside the collection
+    engine.register_fn("verif-go?", || GC_FIRST_GO.load(Ordering::SeqCst));
+    engine.run("(define verif-g3 0) (define t #f) (define (verif-wait) (if (verif-go?) 0 (verif-wait)))".to_string()).unwrap();
     engine
-        .run(r#"(set! t (spawn-native-thread (lambda () (time/sleep-ms 300) (set! verif-g3 1) 1)))"#.to_string())
+        .run(r#"(set! t (spawn-native-thread (lambda () (verif-wait) (set! verif-g3 1) 1)))"#.to_string())
         .unwrap();
+    // from here on the engine thread's next stop request is the collection's
+    hold(0, hook::STOP_BEGIN);
     std::thread::spawn(move || {
         if !wait_arrived(0, hook::STOP_BEGIN, 15) {
             println!("EVENTS: {}", events().join(","));
             println!("COMPLETED: T0 never reached stop_threads");
             std::process::exit(0);
         }
-        // T0 is inside the collection, before its stop request; give T1 time to begin its assignment
-        let t1_at_stop = wait_arrived(1, hook::STOP_BEGIN, 2);
+        // T0 is inside the collection, before its stop request; now let T1 begin its assignment
+        GC_FIRST_GO.store(true, Ordering::SeqCst);
+        std::thread::sleep(Duration::from_millis(1500));
+        let t1_at_stop = SPINS[1].load(Ordering::Relaxed) > 0; // T1 is already spinning in a wait loop of its stop request
         release(0, hook::STOP_BEGIN);
         let t0 = Instant::now();
         while t0.elapsed() < Duration::from_secs(8) {
@@ -364,8 +370,8 @@ fn gc_first() {
         }
         println!("EVENTS: {}", events().join(","));
         println!(
-            "OBSERVED: a global assignment begun while a collection was under way (collector holding the heap lock, assigning thread {} stop_threads before the collector's stop request): 8 s later neither operation has completed (spin iterations T0 {}, T1 {})",
-            if t1_at_stop { "had entered" } else { "had not entered" },
+            "OBSERVED: a global assignment begun while a collection was under way (collector holding the heap lock, assigning thread {} its own stop request before the collector's): 8 s later neither operation has completed (spin iterations T0 {}, T1 {})",
+            if t1_at_stop { "was already waiting in" } else { "had not begun" },
             SPINS[0].load(Ordering::Relaxed),
             SPINS[1].load(Ordering::Relaxed)
         );
